@@ -1,4 +1,4 @@
-import CrabProofs.Lemmas.FunctorVPartHist
+import CrabProofs.Lemmas.FunctorVPartSep
 import CrabProofs.Lemmas.FunctorInst
 import CrabProofs.Lemmas.FunctorInstPack
 
@@ -94,8 +94,16 @@ def Z0 : VP constVDom :=
   ⟨some 0, [⟨Itv.single 0, cm (some 0) none (some 1)⟩, ⟨Itv.single 1, cm (some 1) (some 1) (some 1)⟩,
             ⟨Itv.single 2, cm (some 2) (some 5) (some 0)⟩]⟩
 
-/-- `x := y` -/
+/-- `x := y` (code after 8f4c9c7) -/
 def xy : VP constVDom → VP constVDom := VP.assignOp 0 (cAssignV 0 1)
+
+/-- `x := y` as the pinned tree computed it: per partition, then the OLD `update_partitions()` -/
+def xyOld (a : VP constVDom) : VP constVDom := VP.updatePartsOld (VP.mapParts (cAssignV 0 1) a)
+
+theorem inv_xyOld_W0 : (xyOld W0).Inv :=
+  VP.inv_of_some (x := 0) (by rfl) (fun h => by have := congrArg List.length h; revert this; decide)
+theorem inv_xyOld_Z0 : (xyOld Z0).Inv :=
+  VP.inv_of_some (x := 0) (by rfl) (fun h => by have := congrArg List.length h; revert this; decide)
 
 def keys (a : VP constVDom) : List Itv := a.parts.map (·.key)
 
@@ -109,14 +117,11 @@ end VPartEx
 
 namespace VPartEx
 
-/-- `x := y` as an operation on slot `d` -/
-def opXY (d : Nat) : VP.Op constVDom := .assign d 0 (cAssignV 0 1) (fun s s' => s' = s.set 0 (s 1))
+/-- slots 0, 1: the two values the pinned tree reached by `x := y` (overlapping intervals) -/
+def pool0 : Pool (VP constVDom) := fun i => if i = 0 then xyOld W0 else if i = 1 then xyOld Z0 else VP.top
 
-/-- slots 0, 1: the two values with three separated partitions -/
-def pool0 : Pool (VP constVDom) := fun i => if i = 0 then W0 else if i = 1 then Z0 else VP.top
-
-/-- slot 0 holds `(0,5,0)`, slot 1 holds `(2,5,0)` -/
-def cpool0 : CPool (St V3) := fun i s => (i = 0 ∧ s = st 0 5 0) ∨ (i = 1 ∧ s = st 2 5 0)
+/-- both slots hold `(5,5,0)` -/
+def cpool0 : CPool (St V3) := fun i s => (i = 0 ∨ i = 1) ∧ s = st 5 5 0
 
 end VPartEx
 
